@@ -48,6 +48,11 @@ type Script struct {
 	// Before: sessions established with the SAME Server over other links before the judged one
 	// (what was negotiated there must not influence the judged negotiation).
 	Before []Prior `json:"before,omitempty"`
+	// Neighbour: before the judged Connect, ANOTHER server of the same process - one whose receiving middleware
+	// pins it to the legacy versions by trimming the version list of its own server/discover results in place -
+	// has answered a client over a stateless endpoint. What that application does to its own results must not
+	// reach the judged server.
+	Neighbour bool `json:"neighbour,omitempty"`
 }
 
 type Prior struct {
@@ -120,6 +125,7 @@ func genScript(rt *rapid.T) Script {
 			Close:     rapid.Bool().Draw(rt, "pclose"),
 		})
 	}
+	s.Neighbour = rapid.IntRange(0, 3).Draw(rt, "neighbour") == 0
 	return s
 }
 
@@ -172,6 +178,40 @@ func runInBubble(s Script) (res vt.Result) {
 		mcp.AddTool(server, &mcp.Tool{Name: fmt.Sprintf("extra%d", i)}, func(ctx context.Context, req *mcp.CallToolRequest, in echoIn) (*mcp.CallToolResult, any, error) {
 			return &mcp.CallToolResult{}, nil, nil
 		})
+	}
+	if s.Neighbour {
+		nb := mcp.NewServer(&mcp.Implementation{Name: "neighbour", Version: "1"}, nil)
+		nb.AddReceivingMiddleware(func(next mcp.MethodHandler) mcp.MethodHandler {
+			return func(ctx context.Context, method string, req mcp.Request) (mcp.Result, error) {
+				r, err := next(ctx, method, req)
+				if dr, ok := r.(*mcp.DiscoverResult); ok && dr != nil {
+					dr.SupportedVersions = slices.DeleteFunc(dr.SupportedVersions, func(v string) bool { return v >= modern })
+				}
+				return r, err
+			}
+		})
+		if nl, err := wire.New(nb, wire.Config{Kind: wire.Stateless}); err == nil {
+			nc := mcp.NewClient(&mcp.Implementation{Name: "nbclient", Version: "1"}, nil)
+			nch := make(chan *mcp.ClientSession, 1)
+			go func() {
+				ncs, _ := nc.Connect(context.Background(), nl.ClientTransport, nil)
+				nch <- ncs
+			}()
+			for i, got := 0, false; i < 120 && !got; i++ {
+				synctest.Wait()
+				select {
+				case ncs := <-nch:
+					got = true
+					if ncs != nil {
+						go ncs.Close()
+					}
+				default:
+					time.Sleep(time.Second)
+				}
+			}
+			synctest.Wait()
+			res.Class("a_neighbour_server_trimmed_its_own_discover_result")
+		}
 	}
 	for _, p := range s.Before {
 		pl, err := wire.New(server, p.Link)
